@@ -48,6 +48,22 @@ fn main() {
 
     if fail {
         eprintln!("standin: injected failure of command #{n}");
+        // optional bulk output of the failing command: 18000 bytes of a three-byte character, or 20000 ASCII bytes
+        match plan["noise"].as_str() {
+            Some("unicode") => {
+                // three-byte characters; the two streams differ in length by one byte so that a cut at a fixed byte
+                // distance from the end falls inside a character in at least one of them
+                let s = "\u{2500}".repeat(6000);
+                print!("{s}");
+                eprint!("x{s}");
+            }
+            Some("ascii") => {
+                let s = "x".repeat(20000);
+                println!("{s}");
+                eprintln!("{s}");
+            }
+            _ => {}
+        }
         std::process::exit(1);
     }
     let sub = args.get(1).map(|a| a.to_string_lossy().to_string()).unwrap_or_default();
